@@ -91,8 +91,11 @@ impl Gen
         let nonce = g.cfg.nonce;
         let budget = g.budget;
         let nsys = g.cfg.nsys();
+        // reference-counted system commands already have their own signal: only persistent registrations for them
+        let mut sysmode = vec![0; nsys + 1];
+        for s in g.cfg.rcsys.iter() { sysmode[*s] = 1; }
         Gen{ g, rng: StdRng::seed_from_u64(seed), next_p: 1, next_tok: 1, tokens: vec![], once_used: vec![false; nonce],
-             regd: vec![], sysmode: vec![0; nsys + 1], budget, steps_done: 0, steps_log: vec![] }
+             regd: vec![], sysmode, budget, steps_done: 0, steps_log: vec![] }
     }
 
     fn ty(&mut self) -> u8 { self.rng.gen_range(1..=self.g.ntypes) }
@@ -173,6 +176,7 @@ impl Gen
                 "sset" => Op::SSet(self.ent(), self.ty(), self.val()),
                 "sno" => Op::SNo(self.ent(), self.ty(), self.val()),
                 "despsys" => Op::DespSys(self.sys(applied)),
+                "rcdrop" => { if self.g.cfg.rcsys.is_empty() { continue; } let i = self.rng.gen_range(0..self.g.cfg.rcsys.len()); Op::RcDrop(self.g.cfg.rcsys[i] as u8) }
                 "reg" =>
                 {
                     let m = self.g.modes[self.rng.gen_range(0..self.g.modes.len())].clone();
